@@ -482,4 +482,65 @@ theorem rnd_mono (n1 d1 n2 d2 : Nat) (hd1 : 0 < d1) (hd2 : 0 < d2) (h : n1 * d2 
     nlinarith
 
 
+
+/-! ## monotonicity of the premium -/
+
+
+theorem rnd_mono_q (n1 d1 n2 d2 : Nat) (hd1 : 0 < d1) (hd2 : 0 < d2) (h : (n1 : ℚ) / d1 ≤ (n2 : ℚ) / d2) :
+    (rnd n1 d1).val ≤ (rnd n2 d2).val := by
+  have hd1q : (0 : ℚ) < d1 := by exact_mod_cast hd1
+  have hd2q : (0 : ℚ) < d2 := by exact_mod_cast hd2
+  rw [div_le_div_iff₀ hd1q hd2q] at h
+  exact rnd_mono n1 d1 n2 d2 hd1 hd2 (by exact_mod_cast h)
+
+/-- `mul x y` rounds exactly the product of the values -/
+theorem mul_arg (x y : F) : ∃ n d : Nat, 0 < d ∧ mul x y = rnd n d ∧ (n : ℚ) / d = x.val * y.val := by
+  have hne : (2 : ℚ) ≠ 0 := by norm_num
+  have hprod : x.val * y.val = x.m * y.m * (2 : ℚ) ^ (x.e + y.e) := by
+    unfold F.val; rw [zpow_add₀ hne]; ring
+  by_cases h : 0 ≤ x.e + y.e
+  · refine ⟨x.m * y.m * 2 ^ (x.e + y.e).toNat, 1, by norm_num, by unfold mul; simp [h], ?_⟩
+    obtain ⟨k, hk⟩ := Int.eq_ofNat_of_zero_le h
+    rw [hprod, hk]; simp [zpow_natCast]
+  · have h' : x.e + y.e < 0 := by omega
+    obtain ⟨k, hk⟩ := Int.exists_eq_neg_ofNat (le_of_lt h')
+    refine ⟨x.m * y.m, 2 ^ (-(x.e + y.e)).toNat, Nat.pow_pos (by norm_num), by unfold mul; simp [h], ?_⟩
+    rw [hprod, hk]; simp [zpow_neg, zpow_natCast, div_eq_mul_inv]
+
+theorem mul_mono {x y x' y' : F} (hx : x.val ≤ x'.val) (hy : y.val ≤ y'.val) : (mul x y).val ≤ (mul x' y').val := by
+  obtain ⟨n, d, hd, e, hv⟩ := mul_arg x y
+  obtain ⟨n', d', hd', e', hv'⟩ := mul_arg x' y'
+  rw [e, e']
+  apply rnd_mono_q _ _ _ _ hd hd'
+  rw [hv, hv']
+  exact mul_le_mul hx hy y.val_nonneg (le_trans x.val_nonneg hx)
+
+theorem divNat_mono {x x' : F} (k : Nat) (hk : 0 < k) (hx : x.val ≤ x'.val) :
+    (divNat x k).val ≤ (divNat x' k).val := by
+  unfold divNat
+  apply rnd_mono_q _ _ _ _ (Nat.mul_pos x.den_pos hk) (Nat.mul_pos x'.den_pos hk)
+  have hkq : (0 : ℚ) < k := by exact_mod_cast hk
+  push_cast
+  rw [← div_div, ← div_div, F.num_div_den, F.num_div_den]
+  exact div_le_div_of_nonneg_right hx (le_of_lt hkq)
+
+theorem ofNat_mono {a b : Nat} (h : a ≤ b) : (ofNat a).val ≤ (ofNat b).val := by
+  unfold ofNat
+  exact rnd_mono a 1 b 1 (by norm_num) (by norm_num) (by omega)
+
+theorem floor_mono {x y : F} (h : x.val ≤ y.val) : floor x ≤ floor y := by
+  have hx := floor_bounds x
+  have hy := floor_bounds y
+  have : ((floor x : Nat) : ℚ) < (floor y : Nat) + 1 := by linarith [hx.1, hy.2]
+  have : floor x < floor y + 1 := by exact_mod_cast this
+  omega
+
+/-- **`LumpSumPremium` is monotone** in the amount, the rate and the duration -/
+theorem premium_mono {a a' r r' d d' : Nat} (ha : a ≤ a') (hr : r ≤ r') (hd : d ≤ d') :
+    premium a r d ≤ premium a' r' d' := by
+  unfold premium premiumF
+  exact floor_mono (mul_mono (divNat_mono _ feeRateTotalParts_pos (mul_mono (ofNat_mono ha) (ofNat_mono hr)))
+    (ofNat_mono hd))
+
+
 end Pool.Float64
